@@ -58,6 +58,13 @@ def malformed(rng, mal):
         return frame(b'C', b'') + W.Sync()
     if mal == 'execute_empty_body':
         return frame(b'E', b'') + W.Sync()
+    if mal == 'statement_name_invalid_utf8':
+        name = rng.choice([b'\xff\xfe', b'st\xc3', b'\x80abc'])
+        return frame(b'P', name + b'\0SELECT 1\0\0\0') + frame(b'B', b'\0' + name + b'\0\0\0\0\0\0\0') + W.Execute() + W.Sync()
+    if mal == 'bind_param_length_negative':
+        return W.Parse('', 'SELECT $1') + frame(b'B', b'\0\0\0\0\0\1' + struct.pack('!i', -5) + b'\0\0') + W.Execute() + W.Sync()
+    if mal == 'bind_param_length_huge':
+        return W.Parse('', 'SELECT $1') + frame(b'B', b'\0\0\0\0\0\1' + struct.pack('!i', 0x7fffff00) + b'ab\0\0') + W.Execute() + W.Sync()
     if mal == 'stray_sync':
         return W.Sync()
     if mal == 'stray_copydata':
@@ -294,6 +301,10 @@ def check_c11(prop, tier, seed):
         for cs in cases:
             idx += 1
             items.append({'id': idx, 'steps': [cs], 'seed': seed * 11 + idx, 'cache': [0, 8][idx % 2], 'parser': idx % 3 == 0})
+            if any(x in cs['mal'] for x in ('parse', 'bind', 'describe', 'close', 'execute', 'statement_name')):
+                # decoders of the extended protocol are only used with statement caching on: run these both ways
+                idx += 1
+                items.append({'id': idx, 'steps': [cs], 'seed': seed * 11 + idx, 'cache': [8, 0][idx % 2], 'parser': idx % 2 == 0})
     npairs = {'quick': 120, 'thorough': 3000}[tier]
     for j in range(npairs):
         idx += 1
